@@ -6,6 +6,8 @@ mod dump;
 mod gen;
 mod exec;
 mod c01;
+mod streams;
+mod iso;
 mod c18;
 mod c16;
 mod c19;
@@ -20,7 +22,7 @@ use std::io::Write;
 fn header(prop: &str) -> &'static str {
     match prop {
         "C17" => "From TSG Require Import Model.ContainerOps.\n",
-        "C01" | "LAZY" => "From TSG Require Import Model.Run.\n",
+        "C01" | "LAZY" | "C09" | "C11" | "C15" | "C20" | "C02" | "C08" | "C03" | "C04" => "From TSG Require Import Model.Run.\n",
         "C18" => "From TSG Require Import Model.ParseErr.\n",
         "C16" => "From TSG Require Import Model.Globals.\n",
         "C19" => "From TSG Require Import Model.Cli.\n",
@@ -68,6 +70,14 @@ fn main() {
                 "C17" => c17::gen(&mut rng, n),
                 "C01" => c01::gen(&mut rng, n),
                 "LAZY" => c01::gen_mode(&mut rng, n, true),
+                "C09" => streams::c09_gen(&mut rng, n),
+                "C11" => streams::c11_gen(&mut rng, n),
+                "C15" => streams::c15_gen(&mut rng, n),
+                "C20" => streams::c20_gen(&mut rng, n),
+                "C02" => streams::c02_gen(&mut rng, n),
+                "C08" => streams::c08_gen(&mut rng, n),
+                "C03" => streams::c03_gen(&mut rng, n),
+                "C04" => streams::c04_gen(&mut rng, n),
                 "C18" => c18::gen(&mut rng, n),
                 "C16" => c16::gen(&mut rng, n),
                 "C19" => c19::gen(&mut rng, n),
@@ -86,6 +96,14 @@ fn main() {
                 "C17" => c17::replay(&j["case"]),
                 "C01" => c01::replay(&j["case"]),
                 "LAZY" => c01::replay_mode(&j["case"], true),
+                "C09" => streams::c09_replay(&j["case"]),
+                "C11" => streams::c11_replay(&j["case"]),
+                "C15" => streams::c15_replay(&j["case"]),
+                "C20" => streams::c20_replay(&j["case"]),
+                "C02" => streams::c02_replay(&j["case"]),
+                "C08" => streams::c08_replay(&j["case"]),
+                "C03" => streams::c03_replay(&j["case"]),
+                "C04" => streams::c04_replay(&j["case"]),
                 "C18" => c18::replay(&j["case"]),
                 "C16" => c16::replay(&j["case"]),
                 "C19" => c19::replay(&j["case"]),
